@@ -119,6 +119,30 @@ func genBMap(w *vhlib.Writer, rng *vhlib.Rng, thorough bool) {
 			}
 		}
 	}
+	// argument order of the callback: eq_le is not symmetric, the argument map is pointwise larger / smaller / mixed
+	for _, pair := range [][2]map[int]int{
+		{{1: 1, 2: 5}, {1: 2, 2: 6}}, {{1: 2, 2: 6}, {1: 1, 2: 5}}, {{0: 0}, {0: 1}}, {{0: 1}, {0: 0}}, {{3: -1, 4: 2, 5: 0}, {3: -1, 4: 3, 5: 0}},
+	} {
+		for _, name := range []string{"EqualFuncByMap", "EqualFuncByBMap"} {
+			for wi := 0; wi < 4; wi++ {
+				runMapCase(w, "bmap", wi, pair[0], []mop{{Name: name, Fn: "eq_le", Arg: pair[1], ArgOK: true}})
+			}
+		}
+	}
+	// the merge callback sees the STORED value; a key missing on one side whose partner holds the zero value
+	for wi := 0; wi < 4; wi++ {
+		for _, fn := range []string{"kv_vpos", "kv_klt_v", "kv_keven"} {
+			for _, pair := range [][2]map[int]int{{{1: -1, 2: 3}, {1: 5, 2: -4}}, {{1: 5, 2: -4}, {1: -1, 2: 3, 7: 0}}, {{0: 1, 4: 2}, {0: -3, 4: 9}}} {
+				runMapCase(w, "bmap", wi, pair[0], []mop{{Name: "MergeByMap", Fn: fn, Arg: pair[1], ArgOK: true}})
+				runMapCase(w, "bmap", wi, pair[0], []mop{{Name: "MergeByBMap", Fn: fn, Arg: pair[1], ArgOK: true}})
+			}
+		}
+		for _, pair := range [][2]map[int]int{{{1: 0}, {2: 0}}, {{1: 0, 3: 4}, {3: 4, 5: 0}}, {{2: 0}, {2: 0}}, {{}, {0: 0}}} {
+			for _, name := range []string{"EqualByMap", "EqualByBMap", "EqualFuncByMap", "EqualFuncByBMap"} {
+				runMapCase(w, "bmap", wi, pair[0], []mop{{Name: name, Fn: "eq_std", Arg: pair[1], ArgOK: true}})
+			}
+		}
+	}
 	// sequences (the harness tracks nothing: arguments are drawn around the initial map)
 	for i := 0; i < nseq; i++ {
 		init := inits(rng.Intn(8))
